@@ -13,11 +13,13 @@
        projected deflation tensor the code builds from its `previous` stacks is P^H p) the micro matrix with deflation is
        the micro matrix of the explicitly shifted operator, at every position and for every number of deflation tensors
        (the statement is additive in p).
-   NOT proved (model + oracle-tape correspondence + side check): <= lambda_max and exactness at maximal ranks
-   (Courant-Fischer), the fixed-point clause, convergence of the inverse power iteration. *)
+     - EXACTNESS AT MAXIMAL RANKS (C08_full_rank_eigenpair): when the frame is unitary on the whole space (P P^H = I), an
+       eigenpair (lambda, y) of the micro matrix P^H A P gives the eigenpair (lambda, P y) of A.
+   NOT proved (model + oracle-tape correspondence + side check): <= lambda_max (Courant-Fischer), that the extremal
+   micro eigenvalue is selected, the fixed-point clause, convergence of the inverse power iteration. *)
 From Coq Require Import ZArith List Lia Arith.
 Import ListNotations.
-Require Import Ring Sums Matrix Core Chain Sweep SweepProof TensordotProof Env EnvProof EvpProof DeflationProof.
+Require Import Ring Sums Matrix Core Chain Sweep SweepProof TensordotProof Env EnvProof EvpProof DeflationProof FullRankProof.
 Open Scope cr_scope.
 
 Theorem C08_ritz_consistent (R : cring) (A0 G0 : core R) (Xs As Gs : list (core R)) m (yv : nat -> R) (lam : R) :
@@ -55,3 +57,11 @@ Theorem C08_deflation_is_shift (R : cring) (N K : nat) (A P : M R) (p : nat -> R
   sum N (fun x => sum N (fun y => cconj R (P x i) * A x y * P y j)) + s * (t i * cconj R (t j)).
 Proof. exact (deflation_is_shift N K A P p s i j). Qed.
 Print Assumptions C08_deflation_is_shift.
+
+(* exactness at maximal ranks: with a unitary frame a micro eigenpair is an eigenpair of the operator *)
+Theorem C08_full_rank_eigenpair (R : cring) (n r : nat) (P A : M R) (lam : R) (y : nat -> R) :
+  (forall i j, (i < n)%nat -> (j < n)%nat -> sum r (fun k => P i k * cconj R (P j k)) = delta i j) ->
+  (forall k, (k < r)%nat -> sum r (fun l => microM n P A k l * y l) = lam * y k) ->
+  forall i, (i < n)%nat -> sum n (fun j => A i j * lift r P y j) = lam * lift r P y i.
+Proof. intros H. exact (full_rank_eigen n r P A H lam y). Qed.
+Print Assumptions C08_full_rank_eigenpair.
